@@ -12,6 +12,7 @@ E2, differential, with the real git (2.39) as producer:
 """
 import itertools
 import os
+import re
 import shutil
 import subprocess
 import tempfile
@@ -94,6 +95,10 @@ def zero_resets(data):
     return data.replace(b"\x1b[m", b"\x1b[0m")
 
 
+HH_PLAIN = re.compile(rb"^(@@ [^@]* @@)$", re.M)
+HH_COLOURED = re.compile(rb"^(\x1b\[36m@@ [^@]* @@\x1b\[m)$", re.M)
+
+
 def produce(task):
     """worker: run git for a slice of pairs; returns list of (old, new, plain, [coloured variants])"""
     pairs = task
@@ -114,6 +119,12 @@ def produce(task):
                 continue
             variants = [col, old_style_added(col), zero_resets(col)]
             out.append((old, new, plain, variants))
+            # the same diff with a function context in its hunk headers, as git writes it (such a hunk header is
+            # longer than the smaller --max-line-length levels; hunk headers are exempt from truncation)
+            if len(old) + len(new) <= 2:
+                fc = b"int main(int argc, char **argv)"
+                out.append((old, new, HH_PLAIN.sub(lambda m: m.group(1) + b" " + fc, plain),
+                            [HH_COLOURED.sub(lambda m: m.group(1) + b" \x1b[m" + fc + b"\x1b[m", col)]))
     finally:
         shutil.rmtree(tmp, ignore_errors=True)
     return out
